@@ -18,18 +18,6 @@ theorem check_single_root_eq (fuel : Nat) (ids pids : List Int) :
   simp only [check_single_root, check_single_root.body, Py.bind]
   cases is_single_root fuel ids pids <;> rfl
 
-/-- `Tree.get_bifurcations()` is `Tree.get_furcations()` -/
-theorem get_bifurcations_eq (fuel : Nat) (ids pids : List Int) :
-    get_bifurcations fuel ids pids = get_furcations fuel ids pids := by
-  simp only [get_bifurcations, get_bifurcations.body, Py.bind]
-  cases get_furcations fuel ids pids <;> rfl
-
-/-- `Node.is_bifurcation()` is `Node.is_furcation()` -/
-theorem node_is_bifurcation_eq (ids pids : List Int) (k : Int) :
-    node_is_bifurcation ids pids k = node_is_furcation ids pids k := by
-  simp only [node_is_bifurcation, node_is_bifurcation.body, Py.bind]
-  cases node_is_furcation ids pids k <;> rfl
-
 /-! ### frames as objects: `_copy_and_apply` -/
 
 theorem get?_new (heap : Frames) (fr : Frame) : Frames.get? (heap ++ [fr]) (heap.length : Int) = some fr := by
